@@ -85,6 +85,16 @@ class HidLink:
                  "usage_page": 0xFFA0, "path": b"sim-ledger"}]
 
 
+def sever(link):
+    """The device behind the open handle has been unplugged (another one may be plugged in): the
+    handle is dead (write fails, read error); a new open reaches whatever is plugged in now."""
+    h = getattr(link, "open_handle", None)
+    if h is not None:
+        h.opened = False
+        link.open_handle = None
+    link.tlog("severed")
+
+
 class FakeHidDevice:
     def __init__(self, link):
         self.link = link
